@@ -41,6 +41,10 @@ func sqliteTypeID(k string) string {
 	return k
 }
 
+// quoteDefs are single-quoted SQL string literals with pairwise different values:
+// x, x', 'x, (empty), ', it's, a''b, x" .
+var quoteDefs = []string{"'x'", "'x'''", "'''x'", "''", "''''", "'it''s'", "'a''''b'", "'x\"'"}
+
 func stdDefs(p *profile) func(string) (Def, Def, Def) {
 	return func(k string) (Def, Def, Def) {
 		switch k {
@@ -213,7 +217,18 @@ func bases(p *profile) []Schema {
 		d, _, _ := p.defs(k)
 		b2d.Cols = append(b2d.Cols, Col{Name: fmt.Sprintf("d%02d", i), Type: k, Null: i%2 == 1, Def: &d})
 	}
-	b2 := Schema{Name: "main", Tables: []Table{b2t, b2d}}
+	b2tabs := []Table{b2t, b2d}
+	if p.dialect != "postgres" {
+		// string defaults whose value begins/ends with the quote character or is made of quotes only
+		// (sqlx.Unquote strips exactly one quote pair and collapses doubled quotes)
+		b2q := Table{Name: "quote_defaults", Charset: cs, Collation: co, Engine: eng}
+		for i, v := range quoteDefs {
+			d := Def{V: v}
+			b2q.Cols = append(b2q.Cols, Col{Name: fmt.Sprintf("q%02d", i), Type: p.tText, Null: true, Def: &d})
+		}
+		b2tabs = append(b2tabs, b2q)
+	}
+	b2 := Schema{Name: "main", Tables: b2tabs}
 
 	// B3 composite keys, expression and partial indexes
 	b3 := Schema{Name: "shop", Tables: []Table{
